@@ -36,7 +36,7 @@ func applyMutant(m Mutant) (map[string][]byte, error) {
 func runMutants(root string, ms []Mutant, claims Claims, known []KnownFinding, dir string, wantFail bool) *selftestSummary {
 	st := &selftestSummary{}
 	var mu sync.Mutex
-	sem := make(chan struct{}, 3)
+	sem := make(chan struct{}, 2)
 	var wg sync.WaitGroup
 	for _, m := range ms {
 		wg.Add(1)
@@ -67,10 +67,17 @@ func runMutants(root string, ms []Mutant, claims Claims, known []KnownFinding, d
 			}
 			sub := filepath.Join(dir, "mut-"+m.ID)
 			os.MkdirAll(sub, 0o755)
-			out := runProperty(p, m.Property, claims.Properties[m.Property], known, sub, 10, false)
+			out := runProperty(p, m.Property, claims.Properties[m.Property], known, sub, 30, false)
 			failed = len(out.violations) > 0
 			if failed {
+				// prefer a violation the solver decided over one it merely timed out on
 				v := out.violations[0]
+				for _, x := range out.violations {
+					if x.Status != "timeout" {
+						v = x
+						break
+					}
+				}
 				detail = fmt.Sprintf("%s::%s (%s)", shortName(v.Func), v.Obl, v.Status)
 			}
 			os.RemoveAll(sub)
